@@ -498,7 +498,7 @@ func psCase(h *hctx, id string, plan psPlan) bool {
 	// unsubscribes on its own goroutine: poll)
 	count := func(want int, when string) bool {
 		end := time.Now().Add(deadline)
-		for int(r.x.subscribers.Load()) != want && time.Now().Before(end) {
+		for int(psSubscribersOf(r.x).Load()) != want && time.Now().Before(end) {
 			time.Sleep(50 * time.Microsecond)
 		}
 		got := math.MinInt32
@@ -536,7 +536,7 @@ func psCase(h *hctx, id string, plan psPlan) bool {
 		r.mon("C06", "Send after everybody left returned %d", last.n)
 	}
 	select {
-	case <-r.x.broken:
+	case <-*psBrokenOf(r.x):
 		r.mon("C07", "instance is broken after a contract-following run")
 	default:
 	}
@@ -941,7 +941,7 @@ func psSanity(h *hctx) {
 		}()
 		broken := 0
 		select {
-		case <-x.broken:
+		case <-*psBrokenOf(x):
 			broken = 1
 		default:
 		}
@@ -955,7 +955,7 @@ func psSanity(h *hctx) {
 	add := func(old, delta int) {
 		id++
 		x := NewChanPubSub(make(chan int))
-		x.subscribers.Store(int32(old))
+		psSubscribersOf(x).Store(int32(old))
 		nw := x.addSubscribers(delta)
 		h.line("F pubsub_addsub add%d %d %d | %d", id, old, delta, nw)
 		// and the composition the code performs: add, then check
@@ -1311,7 +1311,7 @@ func psTwoPhase(h *hctx, id string, variant int, withOther bool) bool {
 	}
 	// released exactly once: the count returns to the standing subscribers (the AfterFunc runs on its own goroutine: poll)
 	end := time.Now().Add(deadline)
-	for int(x.subscribers.Load()) != stay && time.Now().Before(end) {
+	for int(psSubscribersOf(x).Load()) != stay && time.Now().Before(end) {
 		time.Sleep(50 * time.Microsecond)
 	}
 	time.Sleep(100 * time.Microsecond) // a second (wrong) unsubscribe would land here
@@ -1344,7 +1344,7 @@ func psTwoPhase(h *hctx, id string, variant int, withOther bool) bool {
 		}
 	}
 	select {
-	case <-x.broken:
+	case <-*psBrokenOf(x):
 		r.mon("C07", "two-phase context (%s): instance is broken", psTPName[variant])
 	default:
 	}
@@ -1378,4 +1378,12 @@ func init() {
 	})
 	register("C06S", func(h *hctx) { timedSweep(h, "c06", psSweepCases(h)) })
 	register("C07SAN", psSanity)
+}
+
+// the subscriber counter (the only atomic.Int32) and the broken channel (the only chan struct{}) of a ChanPubSub
+func psSubscribersOf[C chan V, V any](x *ChanPubSub[C, V]) *atomic.Int32 {
+	return fld[atomic.Int32](x, "subscribers")
+}
+func psBrokenOf[C chan V, V any](x *ChanPubSub[C, V]) *chan struct{} {
+	return fld[chan struct{}](x, "broken")
 }
